@@ -109,6 +109,12 @@ Example Main2_example_SIM_embedded :
 Proof. exact SIM_embedded. Qed.
 Print Assumptions Main2_example_SIM_embedded.
 
+(** the hypotheses of [Main2_defined_once] hold on the witness programs *)
+Example Main2_defined_once_hypotheses :
+  forallb (fun p => countries_wf2 p && match build2 p with Ok E => names_wf E | Err _ => false end) [p_OPEN; p_GOLD] = true.
+Proof. vm_compute. reflexivity. Qed.
+Print Assumptions Main2_defined_once_hypotheses.
+
 (** [no_conflict2] is needed: a user AddVariable gives NET_CA an opaque part of 5; every row of the
     final system is satisfied with unit rates, yet the valued position is 5 *)
 Theorem Main2_fx_valued_zero_refuted :
